@@ -75,43 +75,43 @@ instance {d} : Inhabited (TName d) := ⟨TName.explicit []⟩
 
 def names {d} (l : List (TName d)) : List Name := l.map (·.n)
 
-abbrev ISchema (d : Dialect) := { s : Schema // Inv s ∧ LenInv d s }
+abbrev ISchema (d : Dialect) := { s : Schema // Inv s ∧ LenInv d s ∧ FlagInv s }
 
-def ISchema.empty (d : Dialect) : ISchema d := ⟨{}, inv_empty, lenInv_empty d⟩
+def ISchema.empty (d : Dialect) : ISchema d := ⟨{}, inv_empty, lenInv_empty d, flagInv_empty⟩
 
 /-- a successor schema: nothing that was registered has been removed or altered (`Mono`) -/
 abbrev MSchema {d : Dialect} (s : ISchema d) := { s' : ISchema d // Mono s.1 s'.1 }
 
 def ISchema.addTable {d} (s : ISchema d) (n : TName d) (e : Option (Name × Name)) : Except Err (MSchema s) :=
   match h : Schema.addTable s.1 n.n n.src e with
-  | .ok s' => .ok ⟨⟨s', addTable_inv s.2.1 h, addTable_lenInv s.2.2 n.ok h⟩, addTable_mono h⟩
+  | .ok s' => .ok ⟨⟨s', addTable_inv s.2.1 h, addTable_lenInv s.2.2.1 n.ok h, addTable_flagInv s.2.2.2 h⟩, addTable_mono h⟩
   | .error e => .error e
 
 def ISchema.addEntity {d} (s : ISchema d) (t : Table) (e r : Name) : Except Err (MSchema s) :=
   match h : Schema.addEntity s.1 t e r with
-  | .ok s' => .ok ⟨⟨s', addEntity_inv s.2.1 h, addEntity_lenInv s.2.2 h⟩, addEntity_mono h⟩
+  | .ok s' => .ok ⟨⟨s', addEntity_inv s.2.1 h, addEntity_lenInv s.2.2.1 h, addEntity_flagInv s.2.2.2 h⟩, addEntity_mono h⟩
   | .error e => .error e
 
 def ISchema.addColumn {d} (s : ISchema d) (t : Name) (n : TName d) (notNull : Bool) :
     Except Err { s' : MSchema s // HasCol s'.1.1 t n.n notNull } :=
   match h : Schema.addColumn s.1 t n.n n.src notNull with
-  | .ok s' => .ok ⟨⟨⟨s', addColumn_inv s.2.1 h, addColumn_lenInv s.2.2 n.ok h⟩, (addColumn_mono h).1⟩, (addColumn_mono h).2⟩
+  | .ok s' => .ok ⟨⟨⟨s', addColumn_inv s.2.1 h, addColumn_lenInv s.2.2.1 n.ok h, addColumn_flagInv s.2.2.2 h⟩, (addColumn_mono h).1⟩, (addColumn_mono h).2⟩
   | .error e => .error e
 
 def ISchema.addIndex {d} (s : ISchema d) (t : Name) (arg : IdxArg) (cols : List Name) (isPk : PkKind)
     (isUnique : Option Bool) (m2m : Bool) : Except Err { s' : MSchema s // HasIdx s'.1.1 t cols isPk (isUnique.getD false) } :=
   match h : Schema.addIndex d s.1 t arg cols isPk isUnique m2m with
-  | .ok s' => .ok ⟨⟨⟨s', addIndex_inv s.2.1 h, addIndex_lenInv s.2.2 h⟩, addIndex_mono h⟩, addIndex_has h⟩
+  | .ok s' => .ok ⟨⟨⟨s', addIndex_inv s.2.1 h, addIndex_lenInv s.2.2.1 h, addIndex_flagInv s.2.2.2 h⟩, addIndex_mono h⟩, addIndex_has h⟩
   | .error e => .error e
 
 def ISchema.addFk {d} (s : ISchema d) (child : Name) (fkName : Option Name) (cols : List Name) (parent : Name)
     (parentCols : List Name) (index : IdxArg) : Except Err { s' : MSchema s // HasFk s'.1.1 child cols parent parentCols } :=
   match h : Schema.addFk d s.1 child fkName cols parent parentCols index with
-  | .ok s' => .ok ⟨⟨⟨s', addFk_inv s.2.1 h, addFk_lenInv s.2.2 h⟩, (addFk_mono h).1⟩, (addFk_mono h).2⟩
+  | .ok s' => .ok ⟨⟨⟨s', addFk_inv s.2.1 h, addFk_lenInv s.2.2.1 h, addFk_flagInv s.2.2.2 h⟩, (addFk_mono h).1⟩, (addFk_mono h).2⟩
   | .error e => .error e
 
 def ISchema.markM2m {d} (s : ISchema d) (t : Name) : MSchema s :=
-  ⟨⟨Schema.markM2m s.1 t, markM2m_inv t s.2.1, markM2m_lenInv t s.2.2⟩, markM2m_mono s.1 t⟩
+  ⟨⟨Schema.markM2m s.1 t, markM2m_inv t s.2.1, markM2m_lenInv t s.2.2.1, updTable_flagInv _ _ s.2.2.2⟩, markM2m_mono s.1 t⟩
 
 /-! ### mutable attribute / entity state of the mapping run -/
 
